@@ -477,9 +477,9 @@ pub fn eq_verdict(c: &EqCase, stats: &mut Stats) -> SVerdict {
 pub fn hasher_verdict(case: &Case, stats: &mut Stats) -> SVerdict {
     let cfg = RunCfg { prop: 0, hint_meta: false, tables: false, universe: case.universe.max(1), raw: false, strict_trace: false };
     let mut results: Vec<(HasherKind, Option<String>, Option<Vec<TraceEv>>)> = Vec::new();
-    let mut hashers = vec![HasherKind::Fixed, HasherKind::Random, HasherKind::Keyed, HasherKind::Xx, HasherKind::Colliding, HasherKind::Coarse];
+    let mut hashers = vec![HasherKind::Fixed, HasherKind::Random, HasherKind::Keyed, HasherKind::Xx, HasherKind::Colliding, HasherKind::Coarse, HasherKind::OneShot];
     if cfg!(not(feature = "std")) {
-        hashers = vec![HasherKind::Fixed, HasherKind::Xx, HasherKind::Colliding, HasherKind::Coarse];
+        hashers = vec![HasherKind::Fixed, HasherKind::Xx, HasherKind::Colliding, HasherKind::Coarse, HasherKind::OneShot];
     }
     for &h in hashers.iter() {
         let mut c = case.clone();
